@@ -3,6 +3,10 @@
 import json, subprocess
 
 CLAIMED = {
+ "C08": dict(
+   text="Two seeded simulations per property. (1) Whole platforms (emulation with the gcn3 or cdna3 ALU, shipped r9nano and mi300a timing platforms; one GPU or a unified 2-4 GPU device) run an id-probe kernel assembled per geometry (kasm; every instruction checked with the repository's disassembler; V2/V3-style and V5-style id conventions): each lane derives its global coordinates from the hardware-initialised ids, increments count[cell] and stores its raw ids in an array padded beyond the grid; oracle: count is 1 on every grid cell and 0 on every padding cell, ids decode to the cell. (2) The real command processor with all three placement algorithms (partition included, through the verif hook) dispatches launches that carry work-group filters, as a unified multi-GPU launch does: every filter-selected work-group is mapped exactly once, none outside the filter, announced count = produced. Two genuine defects found and repaired (fix: commits: wavefront formation in partial work-groups, V5 id packing in the timing CU). Exploration, not proof.",
+   note="Trusted: kasm (self-checked against the repository's disassembler and by a fixed self-test geometry per platform), synctest, the controller. Whole platforms use the round-robin algorithm their builders hard-code.",
+   ref="6 (C08), 12"),
  "C09": dict(
    text="Seeded deterministic simulation of the real cp.CommandProcessor with its real dispatchers (1-8), all three placement algorithms (greedy/partition through the verif hook cp.VerifBuild) and the real shared CU resource pool, against stub compute units that declare finite drawn resources and complete work-groups in drawn order after drawn delays, and a scripted driver issuing overlapping launches; online oracle over the CU-facing and driver-facing port histories: every work-group coordinate mapped exactly once, placement inside capacity and disjoint from resident work-groups by an independent interval model, one LaunchKernelRsp per request after the last completion with the right id, resources returned (a final whole-CU probe kernel must be placeable), liveness. Exploration, not proof.",
    note="Trusted: akita ports as executed, the harness's stub CUs, interval model and oracle; stub CUs batch completions of one kernel only (cross-kernel batching is an emulation-CU behaviour examined on the whole platform); generated work-groups fit an empty CU by a conservative model.",
@@ -57,7 +61,6 @@ PENDING = {
  "C01": "check not built yet (planned: whole-platform simulation, DESIGN 6 C01)",
  "C02": "check not built yet (planned: emu-vs-timing differential simulation, DESIGN 6 C02)",
  "C05": "check not built yet (planned: host-schedule exploration under the goroutine controller, DESIGN 6 C05)",
- "C08": "check not built yet (planned: probe kernels on whole platforms, DESIGN 6 C08)",
  "C14": "check not built yet (planned: CU in a box, DESIGN 6 C14)",
 }
 
